@@ -367,6 +367,53 @@ pub fn run(tier: &str, mode: Mode) -> i32 {
     let mut rep = Report::new(id, tier);
     let thorough = tier == "thorough";
     let deep = std::env::var("VERIF_DEEP").map(|v| v == "1").unwrap_or(false);
+    // (c4b) parse histories on ONE thread: 988 distinct valid token texts, each followed at once by the same head with
+    // seven weights the grammar refuses, then everything again in the same and in reverse order (a memo, cache or
+    // interning table in front of a parser must neither change what a text parses to, nor let through what the parser
+    // itself refuses, nor fail when it fills up). The thread runs beside the other families and is joined at the end.
+    let history_thread = {
+        let toks = vlib::notation::rank_pair_tokens();
+        let mut seq: Vec<String> = vec![];
+        for (i, t) in toks.iter().enumerate() {
+            seq.push(format!("{}:0.5", t.text));
+            if i % 4 == 0 {
+                for bad in [":1.5", ":2", ":-0.5", ":nan", ":1e3", ":inf", ":0.5x"] {
+                    seq.push(format!("{}{}", t.text, bad));
+                }
+            }
+            seq.push(t.text.clone());
+        }
+        let n = seq.len();
+        let mut order: Vec<usize> = (0..n).collect();
+        order.extend(0..n);
+        order.extend((0..n).rev());
+        std::thread::spawn(move || {
+            let mut st = Stats::default();
+            let mut bad: Vec<(String, String, String)> = vec![];
+            for &i in &order {
+                st.strings += 1;
+                if let Some((stage, what)) = big_parsers(&seq[i], mode, false, &mut st) {
+                    bad.push((seq[i].clone(), stage, what));
+                    if bad.len() >= 3 {
+                        break;
+                    }
+                }
+                // the refused spellings must stay refused, whatever was accepted before them on this thread
+                if seq[i].ends_with(":1.5") || seq[i].ends_with(":2") || seq[i].ends_with(":-0.5") || seq[i].ends_with(":nan") || seq[i].ends_with(":1e3") || seq[i].ends_with(":inf") || seq[i].ends_with("x") {
+                    let t = seq[i].clone();
+                    let accepted = catch(move || t.parse::<HandRangeToken>().is_ok() || t.parse::<HandRange>().map(|r| !r.card_pairs().is_empty()).unwrap_or(false));
+                    if accepted != Ok(false) && mode == Mode::Valid {
+                        bad.push((seq[i].clone(), "history".into(), format!("a weight outside the grammar was accepted after the same head had been parsed with a valid weight: {:?}", accepted)));
+                        if bad.len() >= 3 {
+                            break;
+                        }
+                    }
+                }
+            }
+            (bad, st.strings, n)
+        })
+    };
+
 
     // (a) short strings over the 35-symbol alphabet -> small parsers (C09 only)
     if mode == Mode::Total {
@@ -407,7 +454,7 @@ pub fn run(tier: &str, mode: Mode) -> i32 {
 
     // (b) short strings over the 15-symbol alphabet -> token and range parsers + second stage
     {
-        let max_len = if deep { 6 } else if thorough { 5 } else { 4 };
+        let max_len = if deep { 6 } else if thorough { 5 } else if vlib::report::lite() { 3 } else { 4 };
         let mut st_all = Stats::default();
         for len in 0..=max_len {
             let total = (ALPHA15.len() as u64).pow(len as u32);
@@ -445,7 +492,7 @@ pub fn run(tier: &str, mode: Mode) -> i32 {
 
     // (c) every string of the seven token shapes with arbitrary ranks, bare and with a weight
     {
-        let shapes = shape_strings();
+        let shapes = vlib::report::thin(shape_strings(), 8);
         let step = if thorough { 1 } else { 3 };
         let chunk = 256;
         let idx: Vec<usize> = (0..shapes.len()).collect();
@@ -509,6 +556,7 @@ pub fn run(tier: &str, mode: Mode) -> i32 {
         variants.sort();
         variants.dedup();
         let chunk = 256;
+        let variants = vlib::report::thin(variants, 8);
         let nch = (variants.len() + chunk - 1) / chunk;
         let outs = par_map(nch, |c| {
             let mut st = Stats::default();
@@ -564,6 +612,7 @@ pub fn run(tier: &str, mode: Mode) -> i32 {
         variants.sort();
         variants.dedup();
         let chunk = 256;
+        let variants = vlib::report::thin(variants, 8);
         let nch = (variants.len() + chunk - 1) / chunk;
         let outs = par_map(nch, |c| {
             let mut st = Stats::default();
@@ -686,10 +735,16 @@ pub fn run(tier: &str, mode: Mode) -> i32 {
             0x2010, 0x2013, 0x301, 0x130, 0xDF, 0x212A, 0x17F, 0x1E9E, 0xFB06, 0xD7FF, 0xE000, 0xFFFD, 0xFFFE, 0x10FFFF,
         ]
         .iter()
+        .cloned()
+        // ... and every ASCII punctuation character (the regex metacharacters ( ) [ ] { } | * ? \ ^ $ among them: a text
+        // that finds its way INTO a pattern must not be able to break it)
+        .chain((0x21u32..=0x2F).chain(0x3A..=0x40).chain(0x5B..=0x60).chain(0x7B..=0x7E))
+        .collect::<Vec<u32>>()
+        .iter()
         .filter_map(|c| char::from_u32(*c))
         .map(|c| c.to_string())
         .collect();
-        let bases = ["", "AA", "AA,KK", "AKs", "A9s+:0.5", "TT-88", "AsKs", "As", "A", "s", "AAs", "AsAs", "AA:1.5", "22-AA", "KK:0", "KsAs:1"];
+        let bases = ["", "AA", "AA,KK", "AKs", "A9s+:0.5", "TT-88", "AsKs", "As", "A", "s", "AAs", "AsAs", "AA:1.5", "22-AA", "KK:0", "KsAs:1", "AKs-AQs", "KJo-K9o:0.5", "AKs-AQs,TT+"];
         let mut set = std::collections::BTreeSet::new();
         for cp in &cps {
             for b in bases {
@@ -722,7 +777,7 @@ pub fn run(tier: &str, mode: Mode) -> i32 {
                 push_viol(&mut rep, "special-code-points", &strings[i], &stage, &what, mode);
             }
         }
-        rep.sub("special-code-points", "42 code points that text handling treats specially (BOM, Unicode spaces, zero-width and direction marks, line separators, ASCII controls, full-width forms, characters whose case mapping changes length or lands on an ASCII letter, the ends of the scalar ranges) before, after, around, doubled before, inserted at every character boundary of and substituted for every character of 16 texts that are valid or one step from valid; distinct_nontrivial = strings some parser accepted", strings.len() as u64, accepted, false, json!({"code_points": cps.len(), "bases": bases.len()}));
+        rep.sub("special-code-points", "74 characters that text handling treats specially (all 32 ASCII punctuation characters incl. the regex metacharacters; BOM, Unicode spaces, zero-width and direction marks, line separators, ASCII controls, full-width forms, characters whose case mapping changes length or lands on an ASCII letter, the ends of the scalar ranges) before, after, around, doubled before, inserted at every character boundary of and substituted for every character of 19 texts that are valid or one step from valid; distinct_nontrivial = strings some parser accepted", strings.len() as u64, accepted, false, json!({"code_points": cps.len(), "bases": bases.len()}));
     }
 
     if mode == Mode::Total {
@@ -866,6 +921,13 @@ pub fn run(tier: &str, mode: Mode) -> i32 {
         rep.sub("showdowns", "all lists of 1 and 2 (and 27 lists of 3) out of six parsed overlapping ranges on 3 flops, enumerated completely: every showdown holds 5+2n different cards and a probability in [0,1]; distinct_nontrivial = showdowns inspected", jobs.len() as u64, sds, false, json!({"showdowns": sds}));
     }
     rep.assume("a caught panic is the observation 'did not return normally'; allocation failure cannot be caught and would abort the check (machinery exit)");
+    {
+        let (bad, strings, n) = history_thread.join().unwrap_or((vec![("thread".into(), "history".into(), "the history thread died".into())], 0, 0));
+        for (s2, stage, what) in bad {
+            push_viol(&mut rep, "parse-histories", &s2, &stage, &what, mode);
+        }
+        rep.sub("parse-histories", "one thread parsing 988 distinct token texts (each with and without a weight; every fourth also with seven weights outside the grammar right after the valid one), then the whole sequence again and then in reverse: no parse panics, every parsed value is valid, and a refused weight stays refused after its head was accepted", strings, strings, false, json!({"sequence": n}));
+    }
     rep.finish()
 }
 
